@@ -703,3 +703,178 @@ def errors_stage(prop, tier, seed, replay):
         rep["floors"]["lab-error-param-kinds"] = [5, len([k for k in rep["matrix"] if k.startswith("lab-error-param/")])]
     rep["violations"] = rep["violations"][:100]
     return rep
+
+
+# ------------------------------------------------------------------------------------------------
+# generated services of random definitions, executed: lab half of C04 (and a runtime cross-check of
+# the safe markers for C09)
+
+def rust_arg_name(n):
+    return lab.snake(n)
+
+
+def visible_ascii(r, n=None):
+    n = n or r.randrange(1, 12)
+    return "".join(chr(r.randrange(0x21, 0x7f)) for _ in range(n))
+
+
+def services_stage(prop, tier, seed, replay):
+    import wire
+    from gen import LabGen, Profile
+    from safety import SafetyModel
+    build(["genrun"])
+    rr = random.Random(seed * 4001 + 4)
+    n = 4 if tier == "quick" else 16
+    labs, specs = [], []
+    for i in range(n):
+        cs = rr.getrandbits(48)
+        cfg = {"exhaustive": i % 2 == 1, "serialize_empty": rr.random() < 0.5, "strip": rr.choice([None, "com.verif", "com.verif.lab"])}
+        g = LabGen(cs, Profile(n_types=25, services=3, errors=0, hostile_names=True))
+        ir = g.ir()
+        labs.append((cs, cfg, g, ir))
+        specs.append({"name": "svc%d" % i, "ir": ir, "cfg": cfg, "drive": True, "driver": lab.driver_source(ir, cfg, registry=False, services=True)})
+    res = lab.build_labs("svc-%s" % tier, specs)
+    rep = empty_report(prop)
+    distinct = set()
+    for i, (cs, cfg, g, ir) in enumerate(labs):
+        name = "svc%d" % i
+        if res.gen.get(name, {}).get("status") != "ok" or not res.compiled.get(name):
+            raise Inconclusive("service lab %s did not build: %s %s" % (name, res.gen.get(name), res.errors.get(name)))
+        r = random.Random(cs ^ 0xC04)
+        c = wire.Ctx(g, r, cfg["exhaustive"], cfg["serialize_empty"])
+        model = SafetyModel(ir)
+        cases, info = [], {}
+        orig_scalar = wire.gen_scalar
+        for s in ir["services"]:
+            sn = s["serviceName"]["name"]
+            for e in s["endpoints"]:
+                for k in range(5 if tier == "quick" else 20):
+                    for flavour in ("sync", "async"):
+                        args, vals, ok = {}, {}, True
+                        for a in e["args"]:
+                            kind = a["paramType"]["type"]
+                            t = a["type"]
+                            if kind == "header":
+                                # HTTP can carry only visible ASCII as header text
+                                def hs(cc, p, _o=orig_scalar):
+                                    if p == "STRING":
+                                        return ("str", visible_ascii(cc.r))
+                                    return _o(cc, p)
+                                wire.gen_scalar = hs
+                            try:
+                                v = wire.gen_value(c, t)
+                            except wire.NoValue:
+                                ok = False
+                                break
+                            finally:
+                                wire.gen_scalar = orig_scalar
+                            u = wire.unalias(v)
+                            if u[0] == "bin" and kind == "body":
+                                args[rust_arg_name(a["argName"])] = json.dumps("hex:" + u[1].hex())
+                            elif u[0] == "opt" and u[1] is not None and wire.unalias(u[1])[0] == "bin" and kind == "body":
+                                ok = False      # optional<binary> request bodies: left out (client signature differs)
+                                break
+                            else:
+                                args[rust_arg_name(a["argName"])] = wire.render(c, v, t, wire.Style())
+                            vals[a["argName"]] = (v, t, kind)
+                        if not ok:
+                            continue
+                        token = None
+                        if e.get("auth"):
+                            token = "tok" + visible_ascii(r, 6).replace("=", "a").translate({ord(ch): "x" for ch in "!\"#$%&'()*,:;<>?@[\\]^`{|}"})
+                            args["auth_"] = json.dumps(token)
+                        script, ret = {}, None
+                        if e.get("returns"):
+                            rt_ = e["returns"]
+                            try:
+                                rv = wire.gen_value(c, rt_)
+                            except wire.NoValue:
+                                continue
+                            ru = wire.unalias(rv)
+                            if ru[0] == "bin":
+                                script[e["endpointName"]] = "hex:" + ru[1].hex()
+                            elif ru[0] == "opt" and (ru[1] is None or wire.unalias(ru[1])[0] == "bin") and wire.dealias(c, wire.dealias(c, rt_)["optional"]["itemType"]) == {"type": "primitive", "primitive": "BINARY"}:
+                                script[e["endpointName"]] = "<absent>" if ru[1] is None else "hex:" + wire.unalias(ru[1])[1].hex()
+                            else:
+                                script[e["endpointName"]] = wire.render(c, rv, rt_, wire.Style())
+                            ret = (rv, rt_)
+                        cid = len(cases) + 1
+                        cases.append({"id": cid, "ty": "%s/%s" % (sn, flavour), "op": "call", "method": lab.snake(e["endpointName"]), "args": args, "script": script})
+                        info[cid] = (sn, e, flavour, vals, token, ret, script)
+        results = lab.run_lab(res, name, cases)
+        if "__crash__" in results:
+            rep["violations"].append(violation("lab-services", cs, "lab-crashed", {"crash": results["__crash__"]}))
+            continue
+        for cid, (sn, e, flavour, vals, token, ret, script) in info.items():
+            out = results.get(cid) or {}
+            rep["evaluations"] += 1
+            kinds = sorted(set(k for (_, _, k) in vals.values()))
+            cell = "lab-call/%s/%s" % (flavour, "+".join(kinds) or "no-args")
+            rep["matrix"][cell] = rep["matrix"].get(cell, 0) + 1
+            for an, (v, t, kind) in vals.items():
+                distinct.add(fnv("%s|%s|%s" % (flavour, kind, wire.unalias(v)[0])))
+            det = {"service": sn, "endpoint": e["endpointName"], "flavour": flavour, "observed": json.dumps(out)[:900], "config": cfg,
+                   "supplied": {k: (wire.render(c, v, t, wire.Style())[:120]) for k, (v, t, _) in vals.items()}}
+            def fail(sig):
+                rep["violations"].append(violation("lab-services", cs, "generated-service:%s:%s" % (flavour, sig), det))
+            result = out.get("result", {})
+            calls = out.get("calls", [])
+            if "panic" in result or "harness_error" in out:
+                fail("panic")
+                continue
+            if "ok" not in result:
+                fail("call-failed")
+                continue
+            if len(calls) != 1 or calls[0]["endpoint"] != e["endpointName"]:
+                fail("handler-events")
+                continue
+            rec = dict((k, v) for k, v in calls[0]["args"])
+            bad = None
+            for an, (v, t, kind) in vals.items():
+                got = rec.get(an)
+                u = wire.unalias(v)
+                try:
+                    if got is None:
+                        raise wire.Mismatch("argument not recorded")
+                    if u[0] == "bin" and kind == "body":
+                        if got != "hex:" + u[1].hex():
+                            raise wire.Mismatch("binary body differs")
+                    else:
+                        wire.check(c, v, t, strict_loads(got))
+                except (wire.Mismatch, ValueError) as ex:
+                    bad = "%s (%s): %s" % (an, kind, str(ex)[:200])
+                    break
+            if bad:
+                det["mismatch"] = bad
+                fail("arguments-differ:" + bad.split(" ")[1].strip("():"))
+                continue
+            if token is not None and rec.get("auth") != json.dumps(token):
+                fail("auth-token-differs")
+                continue
+            if ret is not None:
+                rv, rt_ = ret
+                want = script[e["endpointName"]]
+                ok_txt = result["ok"]
+                try:
+                    if want.startswith("hex:") or want == "<absent>":
+                        if ok_txt != want:
+                            raise wire.Mismatch("binary return differs: %s vs %s" % (ok_txt[:60], want[:60]))
+                    else:
+                        wire.check(c, rv, rt_, strict_loads(ok_txt))
+                except (wire.Mismatch, ValueError) as ex:
+                    det["mismatch"] = str(ex)[:300]
+                    fail("return-value-differs")
+                    continue
+            # runtime cross-check of the safe markers: SafeParams holds exactly the arguments the model calls safe
+            expected_safe = sorted(a["argName"] for a in e["args"] if model.arg_safe(a))
+            got_safe = sorted(k for k, _ in out.get("safe_params", []))
+            if expected_safe != got_safe:
+                det["expected_safe"], det["got_safe"] = expected_safe, got_safe
+                fail("safe-params-differ-from-model")
+            if len(rep["samples"]) < 3:
+                rep["samples"].append({"sub": "lab-services", "case_seed": cs, "service": sn, "endpoint": e["endpointName"], "flavour": flavour, "uri": out.get("uri"), "args": det["supplied"]})
+    rep["distinct"] = sorted(distinct)
+    if not replay:
+        rep["floors"]["lab-call-cells"] = [6, len([k for k in rep["matrix"] if k.startswith("lab-call/")])]
+    rep["violations"] = rep["violations"][:100]
+    return rep
